@@ -313,6 +313,42 @@ for _n, _op, _rel in (("Lt", "__lt__", lambda a, b: a < b), ("Le", "__le__", lam
                                                    __doc__="LinComb %s LinCombFxp: order of the represented numbers" % _op)))
 
 
+class _LcAssertVsFxp(Contract):
+    """x.assert_<rel>(f) for a plain secret integer x and a fixed-point f: either refused (the pinned tree raises
+    RuntimeError: a fixed-point value is no operand of an integer assertion) or, if it returns, the relation holds
+    between the NUMBERS (x against f's representation / 2^r) -- never between x and the raw representation."""
+    modules = ("pysnark.runtime", "pysnark.boolean", "pysnark.fixedpoint", "pysnark.branching")
+    vprops = ("C14", "C03")
+    sprops = eprops = ()
+    tprops = ()
+    skip_facets = "TN"
+    raises_unspecified = True
+    covers_normal = False
+    guard_relevant = False
+    rel = None
+    op = None
+
+    def use_stub(self, c, *a, **k):
+        return False
+
+    def configs(self, tier):
+        return [dict(mode="plain", res=r, bits=6) for r in RES if r > 0]
+
+    def setup(self, c, cfg):
+        apply_mode(c, cfg["mode"], bitlength=cfg["bits"])
+        c.w.modules["pysnark.fixedpoint"].resolution = cfg["res"]
+        return getattr(c.LinComb, self.op), (c.operand("x"), c.mk_fxp(c.operand("y"))), {}
+
+    def post(self, c, r, x, y, *a):
+        R = 1 << c.cfg["res"]
+        return {"V.relation_between_the_numbers": self.rel(c.v(x) * R, c.v(y))}
+
+
+for _op, _rel in (("assert_lt", lambda a, b: a < b), ("assert_le", lambda a, b: a <= b), ("assert_gt", lambda a, b: a > b),
+                  ("assert_ge", lambda a, b: a >= b), ("assert_eq", lambda a, b: a == b), ("assert_ne", lambda a, b: a != b)):
+    register(type("LcAssertVsFxp" + _op, (_LcAssertVsFxp,), dict(name="pysnark.runtime:LinComb.%s#fxp" % _op, op=_op, rel=staticmethod(_rel))))
+
+
 # ---------------------------------------------------------------------------
 # assertions, tests and shifts of LinCombFxp (delegations to the representation)
 # ---------------------------------------------------------------------------
